@@ -629,7 +629,7 @@ class ISD(model.Document):
           isd_element_children.append(isd_element_child)
 
     if len(isd_element_children) > 0:
-      isd_element.push_children(isd_element_children)
+      _push_children(isd_element, isd_element_children)
 
       if isinstance(isd_element, (model.P, model.Rt, model.Rtc)):
         text_node_list = []
@@ -658,6 +658,16 @@ class ISD(model.Document):
       return isd_element
 
     return None
+
+def _push_children(element: model.ContentElement, children: typing.List[model.ContentElement]):
+  '''Adds `children` to `element`. Some of the children of a ruby container in the source document
+  may have been pruned, e.g. because they are temporally inactive, so the strict
+  ordering constraints of `Ruby.push_children()` and `Rtc.push_children()` cannot be applied'''
+  if isinstance(element, (model.Ruby, model.Rtc)):
+    for child in children:
+      model.ContentElement.push_child(element, child)
+  else:
+    element.push_children(children)
 
 def _prune_empty_spans(element: model.ContentElement):
   children = list(element)
@@ -1425,7 +1435,7 @@ def _clone_doc_with_one_region(doc: model.ContentDocument, region_id: str):
         new_children.append(new_child)
 
     if len(new_children) > 0:
-      new_element.push_children(new_children)
+      _push_children(new_element, new_children)
 
     return new_element
 
